@@ -408,6 +408,52 @@ def clause5_handshake(ctx, P, cg):
     ctx.floor("C12.5 R-GATE", 6)
 
 
+def clause7_scanners(ctx, P):
+    """the two comma-separated-list scanners (sub-protocols, extensions) are twins up to the per-token callee"""
+    from .c16 import shape
+    a = P.fn("websocket.c:check_websocket_protocol")
+    b = P.fn("websocket.c:check_websocket_extensions")
+    sa_, sb_ = shape(P, a, {"fill_requested_sub_protocol": "TOKEN"}), shape(P, b, {"fill_requested_extension": "TOKEN"})
+    ok = sa_ == sb_
+    diff = ""
+    if not ok:
+        for k, (x, y) in enumerate(zip(sa_, sb_)):
+            if x != y:
+                diff = "first difference at instruction %d: %s vs %s" % (k, x[1:5], y[1:5])
+                break
+        diff = diff or "different length (%d vs %d)" % (len(sa_), len(sb_))
+    ctx.ob("C12.5 R-SIB", a, "list-scanners-agree", ok,
+           "check_websocket_protocol and check_websocket_extensions no longer scan their comma separated lists the same way (%s): "
+           "one of them mishandles a token boundary (e.g. the last of several offered sub-protocols)" % diff)
+
+
+def clause8_status_codes(ctx, P):
+    """is_status_code_invalid against the close codes RFC 6455 7.4 allows an endpoint to send"""
+    from ..core.feval import FEval
+    f = P.fn("websocket.c:is_status_code_invalid")
+    consts = set()
+    for i in f.all_insts():
+        if i.op == "icmp":
+            for o in i.a:
+                c = P.const_int(o)
+                if c is not None:
+                    consts.add(c & 0xFFFF)
+    reps = {0, 65535, 999, 1000, 1003, 1004, 1006, 1007, 1011, 1012, 1015, 2999, 3000, 4999, 5000}
+    for c in consts:
+        reps |= {max(0, c - 1), c, min(65535, c + 1)}
+    ev = FEval(P, f, None, ptr_param=None)
+    valid = lambda c: (1000 <= c <= 1003) or (1007 <= c <= 1011) or (3000 <= c <= 4999)
+    bad = []
+    for c in sorted(reps):
+        r, _ = ev.run({}, {0: c})
+        if bool(r & 1) != (not valid(c)):
+            bad.append(c)
+    ctx.ob("C12.1 R-TABLE", f, "close-code-table", not bad,
+           "is_status_code_invalid disagrees with RFC 6455 7.4 for close code(s) %s (valid to receive: 1000-1003, 1007-1011, "
+           "3000-4999): such a close frame is acknowledged as a normal close instead of being refused with 1002, or vice versa" % bad[:8],
+           detail={"representatives": len(reps)})
+
+
 def clause6_transparency(ctx, P, cg):
     rm = P.fn("socket_peer.c:read_msg")
     tm = P.fn("websocket_peer.c:text_message_callback")
@@ -446,3 +492,5 @@ def run(ctx):
         clause4_pong(ctx, P)
         clause5_handshake(ctx, P, cg)
         clause6_transparency(ctx, P, cg)
+        clause7_scanners(ctx, P)
+        clause8_status_codes(ctx, P)
